@@ -9,7 +9,7 @@ class C05Check(ExplainerCheck):
     prop = "C05"
     oracle_classes = (C05Oracle,)
     design_ref = "DESIGN.md section 4, C05"
-    runs = {"quick": 2000, "thorough": 90000}
+    runs = {"quick": 2000, "thorough": 300000}
 
     def gen(self, seed, tier, run_index):
         rng = seeds.run_rng(seed, self.prop, tier, run_index)
